@@ -15,16 +15,18 @@
       predicate on every executed message; everything that is ever pending is executed);
     - [paused_tx_trace]: a successful transaction in a paused world whose root is not exempt leaves the
       hub unchanged, executes no message addressed to the hub and no message sent by the hub;
-    - [paused_exempt_tx]: exact effect of a successful exempt root transaction;
+    - [exempt_tx_effect], [params_tx_effect], [migrate_tx_effect]: exact effect of a successful
+      exempt root transaction (one message executed, nothing emitted);
     - [paused_frozen]: MAIN: every non-exempt operation of the alphabet leaves the hub unchanged;
-    - [paused_frozen_history]: ... and so does every history of non-exempt operations (the hub is
-      still paused, with the same state, at the end and in every intermediate world);
+    - [paused_frozen_history], [paused_frozen_always]: ... and so does every history of non-exempt
+      operations (the hub is still paused, with the same state, at the end and in every
+      intermediate world);
     - [paused_tx_hub_messages]: in ANY successful transaction in a paused world every executed message
       addressed to the hub is UpdateParams / MigrateUnbondWaitList and no executed message other
       than the root was sent by the hub;
     - [paused_tx_needing_hub_fails], [paused_bsei_send_fails], [paused_stsei_send_fails],
-      [paused_bsei_sendfrom_fails], [paused_stsei_sendfrom_fails], [paused_stsei_burn_fails],
-      [paused_reg_remove_fails]: a transaction whose root makes its contract call the hub fails as
+      [paused_bsei_sendfrom_fails], [paused_stsei_sendfrom_fails], [paused_bsei_burnfrom_fails],
+      [paused_stsei_burnfrom_fails], [paused_reg_remove_fails]: a transaction whose root makes its contract call the hub fails as
       a whole and changes nothing. *)
 From Krp Require Import Tactics Prelude Fixed FMap Types Env Registry Cw20 Reward Dispatcher Hub Exec
      ExecP Hist HubFrame HubAdmin Auth Pause MirrorWire.
